@@ -402,6 +402,16 @@ Definition has_probe (fuel : nat) (l : list item) : bool :=
   match flatten fuel l with Some leaves => existsb is_probe leaves | None => false end.
 Definition simulate_ok (fuel : nat) (l : list item) : verdict :=
   flatten_shape_ok fuel l >> guard (negb (has_probe fuel l)) ValueError.
+(* the keyword options of simulate(): none of them takes part in the validation of the sequence --
+   in particular a custom `probe=` (string, list, tuple, Probe object, callable) only supersedes
+   what is acquired at the probes of the sequence, it does not stand in for a missing one *)
+Inductive probe_arg : Type :=
+  PrNone | PrEmpty | PrStr | PrList (n : nat) | PrTuple (n : nat) | PrObject | PrCallable.
+Record sim_options : Type := mkSimOpts {
+  so_probe : probe_arg; so_adc_time : bool; so_asarray : bool; so_init_given : bool;
+  so_max_nstate : option nat; so_callback : bool }.
+Definition simulate_call_ok (o : sim_options) (fuel : nat) (l : list item) : verdict := simulate_ok fuel l.
+
 (* functions.modify(sequence, modifier, ...) *)
 Definition modify_ok (fuel : nat) (l : list item) (modifier_callable : bool) : verdict :=
   flatten_shape_ok fuel l >> guard (negb modifier_callable) TypeError.
